@@ -15,6 +15,10 @@ pub struct Case {
     pub port_seed: u64,
     /// make (HL) equal to A so that CPI/CPIR-type instructions see a match
     pub a_eq_hl: bool,
+    /// when not `a_eq_hl`: (HL) = A - this (A - (HL) = 1 or 255 with and without a half borrow are
+    /// the states where a compare's "found" decision and its flag arithmetic are easily confused)
+    #[serde(default)]
+    pub a_minus_hl: Option<u8>,
     pub only: Option<(u8, u8)>,
 }
 
@@ -59,6 +63,8 @@ fn run_single(c: &Case, base: &[u8; 65536], table: Table, op: u8, rec: &mut Rec)
     let pc = c.state.regs.pc;
     if c.a_eq_hl {
         mem[c.state.regs.hl as usize] = (c.state.regs.af >> 8) as u8;
+    } else if let Some(d) = c.a_minus_hl {
+        mem[c.state.regs.hl as usize] = ((c.state.regs.af >> 8) as u8).wrapping_sub(d);
     }
     for (i, b) in bytes.iter().enumerate() {
         mem[pc.wrapping_add(i as u16) as usize] = *b;
@@ -211,9 +217,9 @@ pub fn case_strategy() -> impl Strategy<Value = Case> {
         proptest::array::uniform3(u8_biased()),
         any::<u64>(),
         any::<u64>(),
-        any::<bool>(),
+        (any::<bool>(), prop_oneof![2 => Just(None), 2 => Just(Some(1u8)), 1 => Just(Some(0xFF)), 1 => Just(Some(0x10)), 1 => any::<u8>().prop_map(Some)]),
     )
-        .prop_map(|(mut regs, b, bc, use_bc, operands, mem_seed, port_seed, a_eq_hl)| {
+        .prop_map(|(mut regs, b, bc, use_bc, operands, mem_seed, port_seed, (a_eq_hl, a_minus_hl))| {
             if use_bc {
                 regs.bc = bc;
             } else {
@@ -231,6 +237,7 @@ pub fn case_strategy() -> impl Strategy<Value = Case> {
                 mem_seed,
                 port_seed,
                 a_eq_hl,
+                a_minus_hl,
                 only: None,
             }
         })
@@ -290,7 +297,7 @@ pub fn replay(run: &mut Run, phase: &str, case: &serde_json::Value) -> Result<()
 }
 
 pub const LEVEL: &str = "exploration";
-pub const RULE: &str = "each generated state (registers, flags, B/BC biased to 0/1/2 so that every repeat/fall-through variant occurs, optional A==(HL), operand bytes, random memory) is applied to ALL 1792 encodings; implementation and reference execute the instruction from the same state and the ordered timing skeleton is compared event by event: (kind read/write/delay/io, clocks 4/3/1, address of every memory cycle and of every single delay T-state — each presented as its own 1-T bus call —, port of every I/O cycle) plus the T-state total; second phase: INT entry in IM 0/1/2, NMI entry, HALT refetch, from running and halted states (totals 13/19/11/4 and the memory cycles). non-trivial/distinct = distinct (encoding, timing-skeleton shape) pairs; coverage of 17 named variants (taken/not taken, repeat/last, match) and 5 entry kinds is asserted";
+pub const RULE: &str = "each generated state (registers, flags, B/BC biased to 0/1/2 so that every repeat/fall-through variant occurs, optional A==(HL) or A-(HL) in {1, 0xFF, 0x10, any}, operand bytes, random memory) is applied to ALL 1792 encodings; implementation and reference execute the instruction from the same state and the ordered timing skeleton is compared event by event: (kind read/write/delay/io, clocks 4/3/1, address of every memory cycle and of every single delay T-state — each presented as its own 1-T bus call —, port of every I/O cycle) plus the T-state total; second phase: INT entry in IM 0/1/2, NMI entry, HALT refetch, from running and halted states (totals 13/19/11/4 and the memory cycles). non-trivial/distinct = distinct (encoding, timing-skeleton shape) pairs; coverage of 17 named variants (taken/not taken, repeat/last, match) and 5 entry kinds is asserted";
 pub const ASSUMPTIONS: &[&str] = &[
     "reference bus-cycle breakdown (refz80) follows the published ZX Spectrum contention tables; trusted after calibration and its own T-state table self-check",
     "inside interrupt entry totals and memory cycles are compared; the position of the 7/5 acknowledge T-states is not judged, but acknowledge T-states the implementation presents as addressed delay T-states must carry the return address (the pushed word; HALT+1 out of HALT); HALT refetch address PC or PC+1 both accepted",
